@@ -61,6 +61,16 @@ def gen(rng, tier):
             off = Fr(rng.choice(["0.1009", "0.1006", "0.3004", "0.0993"]))
             s.loads = [{"kind": "c", "term": "fy", "local": True, "bar": b["id"], "t": off, "v": Fr(-800)},
                        {"kind": "c", "term": "fy", "local": True, "bar": b["id"], "t": Fr("0.5"), "v": Fr(-1500)}]
+        end_moment = (g % 7 == 6)
+        if end_moment:
+            # one half of the load set has nothing but loads at the ends of a bending bar, a moment among them; the other half loads
+            # the same bar along its span
+            s = G.gen_beam(rng)
+            b = s.bars[0]
+            free_end = Fr(1) if not any(s.nodes[b["n2"]][2]) else (Fr(0) if not any(s.nodes[b["n1"]][2]) else Fr(1))
+            s.loads = [{"kind": "c", "term": "mz", "local": True, "bar": b["id"], "t": free_end, "v": Fr(18000)},
+                       {"kind": "c", "term": "fy", "local": True, "bar": b["id"], "t": free_end, "v": Fr(-300)},
+                       {"kind": "d", "term": "fy", "local": True, "bar": b["id"], "t0": Fr(0), "v0": Fr(-12), "t1": Fr(1), "v1": Fr(-30)}]
         if len(s.loads) < 2:
             s.loads += G.gen_loads_for_bar(rng, s.bars[0]["id"], nmax=3, allow_mz_dist=False) or []
         # every factor is used by some group of every run (the tiny ones push whole load sets under the
@@ -82,7 +92,9 @@ def gen(rng, tier):
             half = [True, True, False]
         if near_even:
             half = [True, False]
-        if g % 2 == 0 and not near_even:
+        if end_moment:
+            half = [True, True, False]
+        if g % 2 == 0 and not near_even and not end_moment:
             # two concentrated loads closer than the slicing tolerance (1e-3) but distinct, one in each half
             b = rng.choice([b for b in s.bars if b["l1"][2] or b["l2"][2]] or s.bars)
             t0 = Fr(rng.choice(["0.25", "0.5", "0.37", "0.6431"]))
@@ -93,7 +105,7 @@ def gen(rng, tier):
                     s.loads.append({"kind": "c", "term": rng.choice(["fy", "fy", "fx", "mz"]), "local": True, "bar": b["id"], "t": tt,
                                     "v": Fr(rng.choice([-1, 1]) * rng.choice([100, 250, 1000]))})
                     half.append(h)
-        if g % 3 == 1 and not near_even:
+        if g % 3 == 1 and not near_even and not end_moment:
             # a local-axes and a global-axes load at exactly the same point of a (preferably inclined) bar, one in each half
             def inclined(b):
                 (x1, y1, _), (x2, y2, _) = s.nodes[b["n1"]], s.nodes[b["n2"]]
@@ -105,7 +117,7 @@ def gen(rng, tier):
                 for local, term, h in ((True, "fy", True), (False, rng.choice(["fx", "fy"]), False)):
                     s.loads.append({"kind": "c", "term": term, "local": local, "bar": b["id"], "t": tt, "v": Fr(rng.choice([-3000, 2000, 700]))})
                     half.append(h)
-        if g % 3 == 2 and not near_even:
+        if g % 3 == 2 and not near_even and not end_moment:
             b = ([b for b in s.bars if b["l1"][2] or b["l2"][2]] or s.bars)[0]
             t0, t1 = Fr(rng.choice(["0.2", "0.1"])), Fr(rng.choice(["0.6", "0.45"]))
             if all(abs(tt - x) > Fr("0.002") for tt in (t0, t1) for l in s.loads if l["bar"] == b["id"] for x in ([l["t"]] if l["kind"] == "c" else [l["t0"], l["t1"]])):
@@ -135,6 +147,11 @@ def gen(rng, tier):
             # (every fourth group is solved from its own .inkfempre text read back: what is written must carry small loads too)
             c = core.case_from_struct(st, Weight=False, Solve=True, Assemble=True, Error=estr(err), ViaPre=(g % 4 == 1))
             c.update(group=g, role=role, factor=str(k) if k is not None else None)
+            if role == "base" and g % 4 != 1:
+                # a caller that solves the load cases one after the other and compares afterwards: the first solution is looked at
+                # again after the scaled case (or the unloaded one) was solved in the same process
+                other = group[1][1] if g % 2 == 0 else group[-1][1]
+                c["HoldText"] = core.case_from_struct(other, Weight=False)["Text"]
             cases.append(c)
     return cases
 
@@ -179,9 +196,15 @@ def oracle(c, o):
         return []
     fails = []
     oA = base[1]
+    if oA.get("HeldPanic"):
+        fails.append("looking at the first solution after another load case was solved in the same process panicked: " + oA["HeldPanic"][:150])
+    elif oA.get("SolHeld") is not None and (oA["SolHeld"] != oA["Sol"] or (oA.get("ReacHeld") or {}) != (oA.get("Reactions") or {})):
+        what = next(("bar %s %s" % (a["ID"], k) for a, b in zip(oA["Sol"], oA["SolHeld"]) for k in a["Series"] if a["Series"][k] != b["Series"].get(k)), "the reactions")
+        fails.append("the solution of a load case changed after another load case of the same structure was solved in the same process (%s): "
+                     "the two can no longer be compared or added" % what)
     tA = M.utol(oA)
     if tA is None:
-        return []
+        return fails
     ident = lambda k: M.Transform(lambda x, y, z: (k * x, k * y, k * z), lambda fx, fy, mz, p: (k * fx, k * fy, k * mz),
                                   lfac=(k, k, k), dfac=(k, k, k, k))
     for cc, oo in members:
